@@ -239,19 +239,19 @@ reg(PropertySpec(
 # (property, contract) pair whose tagged obligations would otherwise not be counted by the property's own check)
 _EXTRA = {
     "C02": ["samplers.importance:ImportanceSampler.sample", "samples:Samples.__getitem__", "samples:Samples.compute_weights"],
-    "C04": ["flows.jax.flows:FlowJax.sample_and_log_prob", "flows.torch.flows:ZukoFlow.sample_and_log_prob"],
-    "C05": ["samplers.mcmc:Emcee.sample", "samplers.mcmc:MiniPCN.sample", "samplers.smc.base:SMCSampler.sample"],
+    "C04": ["aspire:Aspire.init_sampler", "flows.jax.flows:FlowJax.sample_and_log_prob", "flows.torch.flows:ZukoFlow.sample_and_log_prob"],
+    "C05": ["aspire:Aspire.init_sampler", "samplers.mcmc:Emcee.sample", "samplers.mcmc:MiniPCN.sample", "samplers.smc.base:SMCSampler.sample"],
     "C08": ["aspire:Aspire.sample_posterior"],
     "C10": ["samplers.mcmc:Emcee.sample", "samplers.mcmc:MiniPCN.sample", "samples:BaseSamples.from_dict", "utils:PoolHandler.__exit__"],
-    "C11": ["samples:BaseSamples.from_samples", "aspire:Aspire.resume_from_file", "aspire:Aspire._build_aspire_from_file"],
+    "C11": ["aspire:Aspire.sample_posterior", "aspire:Aspire.init_sampler", "samples:BaseSamples.from_samples", "aspire:Aspire.resume_from_file", "aspire:Aspire._build_aspire_from_file"],
     "C12": ["samplers.smc.base:SMCSampler.restore_from_checkpoint", "samplers.smc.base:SMCSampler.build_checkpoint_state", "aspire:Aspire.resume_from_file", "aspire:Aspire._build_aspire_from_file"],
-    "C14": ["aspire:Aspire.resume_from_file", "aspire:Aspire._build_aspire_from_file", "samplers.smc.base:SMCSampler.sample", "aspire:Aspire.config_dict", "aspire:Aspire.save_config"],
-    "C13": ["samples:BaseSamples.__setstate__", "transforms:CompositeTransform.__init__", "samples:Samples.to_numpy", "samples:SMCSamples.to_numpy", "aspire:Aspire.config_dict", "aspire:Aspire.save_config", "aspire:Aspire._build_aspire_from_file"],
-    "C15": ["flows.torch.flows:ZukoFlow.sample_and_log_prob", "samplers.importance:ImportanceSampler.sample", "samplers.smc.minipcn:MiniPCNSMC.mutate", "samplers.smc.emcee:EmceeSMC.mutate", "aspire:Aspire._build_aspire_from_file", "flows.jax.flows:FlowJax.save", "flows.torch.flows:BaseTorchFlow.save", "samples:BaseSamples.from_dict", "samples:Samples.rejection_sample",
+    "C14": ["aspire:Aspire.init_sampler", "aspire:Aspire.resume_from_file", "aspire:Aspire._build_aspire_from_file", "samplers.smc.base:SMCSampler.sample", "aspire:Aspire.config_dict", "aspire:Aspire.save_config"],
+    "C13": ["aspire:Aspire.init_sampler", "samples:BaseSamples.__setstate__", "transforms:CompositeTransform.__init__", "samples:Samples.to_numpy", "samples:SMCSamples.to_numpy", "aspire:Aspire.config_dict", "aspire:Aspire.save_config", "aspire:Aspire._build_aspire_from_file"],
+    "C15": ["aspire:Aspire.init_sampler", "flows.torch.flows:ZukoFlow.sample_and_log_prob", "samplers.importance:ImportanceSampler.sample", "samplers.smc.minipcn:MiniPCNSMC.mutate", "samplers.smc.emcee:EmceeSMC.mutate", "aspire:Aspire._build_aspire_from_file", "flows.jax.flows:FlowJax.save", "flows.torch.flows:BaseTorchFlow.save", "samples:BaseSamples.from_dict", "samples:Samples.rejection_sample",
             "transforms:CompositeTransform.forward", "transforms:CompositeTransform.inverse"],
     "C17": ["aspire:Aspire.sample_posterior", "samplers.mcmc:Emcee.sample", "samplers.mcmc:MiniPCN.sample", "samplers.base:Sampler.log_likelihood"],
     "C18": ["samplers.smc.emcee:EmceeSMC.mutate", "samplers.smc.minipcn:MiniPCNSMC.mutate", "history:SMCHistory.save"],
-    "C20": ["flows.jax.flows:FlowJax.sample_and_log_prob", "samplers.importance:ImportanceSampler.sample", "samplers.smc.base:SMCSampler.__init__", "samplers.smc.blackjax:BlackJAXSMC.__init__"],
+    "C20": ["aspire:Aspire.init_sampler", "flows.jax.flows:FlowJax.sample_and_log_prob", "samplers.importance:ImportanceSampler.sample", "samplers.smc.base:SMCSampler.__init__", "samplers.smc.blackjax:BlackJAXSMC.__init__"],
 }
 for _pid, _qs in _EXTRA.items():
     for _q in _qs:
